@@ -5,6 +5,7 @@
 #include "exc_ref.h"
 #include <functional>
 #include <unordered_set>
+#include <setjmp.h>
 
 extern "C" {
 #include "ares_setup.h"
@@ -12,6 +13,17 @@ extern "C" {
 #include "ares_private.h"
 #include "ares_data.h"
 }
+
+// Place directly after Ctx::begin_case() inside a family loop: if a call under test does not return
+// within the per-case time limit, SIGALRM jumps back here, the case becomes a violation and the loop
+// continues with the next case (after three hangs the family is abandoned as not exhaustive).
+#define EXC_GUARD(c)                 \
+  (c).armed = true;                  \
+  if (sigsetjmp((c).jb, 1) != 0) {   \
+    (c).on_hang();                   \
+    if ((c).abort_family) return;    \
+    continue;                        \
+  }
 
 namespace exc {
 
@@ -33,7 +45,13 @@ struct Ctx {
     if (idx < args.resume) return false;
     return idx % args.nshards == args.shard;
   }
-  void begin_case(long long idx, const std::string &extra_json); // sets index, case_json, crash context
+  void begin_case(long long idx, const std::string &extra_json); // sets index, case_json, crash context, arms the per-case timer
+  // in-process recovery from a call that does not return (C02 "the call terminates"): see EXC_GUARD
+  sigjmp_buf  jb;
+  volatile bool armed = false;
+  int         hangs = 0;
+  bool        abort_family = false;
+  void        on_hang();
   std::string case_json;     // replay object of the case being executed
   double      t_end = 1e18;
   bool        want(const char *o) const { return oracle == "all" || oracle == o; }
@@ -44,6 +62,18 @@ struct Ctx {
 void        init_library();              // ares_library_init_mem with the ledger allocator
 bool        ledger_clean(std::string *what = nullptr); // true if no block is live; forgets leaked blocks
 std::string status_name(int st);
+
+// a record kept alive across calls lives in the ledger: temporarily hide its blocks so that the leak
+// checks inside the scope see only what the calls under test allocate
+struct LedgerScope {
+  std::unordered_map<void *, size_t> saved;
+  LedgerScope() { saved.swap(vf::ledger().live); }
+  ~LedgerScope()
+  {
+    for (auto &e : vf::ledger().live) saved.insert(e);
+    vf::ledger().live.swap(saved);
+  }
+};
 
 // exact-size heap copy of an input so that ASan sees a 1-byte over-read
 struct HeapBuf {
